@@ -27,7 +27,7 @@ func init() {
 			"C08.ovf (as built): newSize is extracted as a decision table over (sign of value, integrality round trip, unit empty / in zeroUnits / in unitToValues, high word of bits.Mul64) and compared with the documented outcomes by three-valued logic; C08.text likewise for the text path (digits present, ParseUint error, unit present, RuleDisableUnit, newSize error); C08.bytes: Bytes[N] per reflect.Kind succeeds exactly on `s <= Max(kind)` for the ten integer kinds and exactly on the conversion round trip for the float kinds. " +
 			"C08.max: internal.Max/Min/SmallestNonzero switch tables pair each reflect.Kind with the boxed type and math constant of that kind (re-checked under GOARCH=386 in the thorough tier); Bytes uses Max for the ten integer kinds and the round-trip test for the float kinds; internal.Kind evaluates to reflect.TypeOf(value).Kind() (the ~T constraints admit named types, which a test for exact types misses). C08.sep: the scanning loop's transfer table over all runes (as C04.sep): only space, '_' and U+00A0 are skipped. C08.whole: under a JSON rule every success return is preceded by a whole-input check (as C12.whole), so no tail of the text is dropped. C08.json: the JSON forms as a decision table (C12.gate under this property): the number form is the text form of the json.Number token, no detour through floating point. size.New is newSize with its error wrapped (C08.ovf wrapper); the decision table of newSize has a fourth valuation for NaN (unordered with 0 and with its own conversion: must be refused), and the round-trip atom is exactly N(uint64(value)) against value; prepareNumber's returns are (accumulated digits, \"\") at the end and (accumulated digits, input from the stopping rune on) otherwise." +
 			" Added after the second rule audit: the float round trip of Bytes is three-valued (a float above the size is as wrong as one below); the division idiom value > MaxUint64/multiplier is its own three-valued atom; C08.object 'number error': every nil-error return of decodeValue lies on the nil side of the test of ParseUint's error." +
-			" C08.mint: who may convert — uint64 ↔ Size anywhere; from any other type a number becomes a Size only inside newSize (or an unexported helper called from nowhere else), a Size becomes another number only inside Bytes (likewise): a new Scan/Value pair that converts int64 directly is reported. Since audit round 3 C08.mint follows a uint64 that becomes a Size to its origin (another numeric type squeezed through uint64 is a violation, wrap-capable arithmetic undecided), follows a uint64 taken from a Size to a later narrowing, and names Size arithmetic outside the constructor; C08.tab also forbids delete/clear on, and handing on of, the table references.",
+			" C08.mint: who may convert — uint64 ↔ Size anywhere; from any other type a number becomes a Size only inside newSize (or an unexported helper called from nowhere else), a Size becomes another number only inside Bytes (likewise): a new Scan/Value pair that converts int64 directly is reported. Since audit round 3 C08.mint follows a uint64 that becomes a Size to its origin (another numeric type squeezed through uint64 is a violation, wrap-capable arithmetic undecided), follows a uint64 taken from a Size to a later narrowing, and names Size arithmetic outside the constructor; C08.tab also forbids delete/clear on, and handing on of, the table references (a helper of the module that only reads them is followed; a second package-level name for a table is undecided). The origin of a uint64 is followed through helpers of the module; a word of math/bits arithmetic taken outside the constructor is undecided; a uint64 a call made out of a Size may not be narrowed outside the accessor.",
 		NotDecided:  []string{"whether arithmetic on uint64 or Size values outside the checked constructor can wrap (C08.mint names it as undecided)", "exactness of float↔uint64 conversions at the 2^53/2^64 boundaries (platform-defined): the rule decides that the verdict is the round-trip test, not what the hardware conversion yields", "a fractional number whose product with the unit is integral (1.5 KiB) is refused by the library; the property's second sentence (fractional inputs never produce a truncated value) is taken as the reading"},
 		Assumptions: []string{"bits.Mul64 returns the exact 128-bit product", "strconv.ParseUint(s,10,64) is exact or fails"},
 		Technique:   "constant-table reading + decision-table extraction (newSize, text path, Bytes per kind, Max/Min tables) over go/ssa",
